@@ -3,6 +3,7 @@ Driver for stream `wire`: one op per line, one observation per line.
   case <k>                    -> case <k>
   putvaruint <dec>            -> <hex>
   readvaruint <hex>           -> ok <dec> <rest-hex> | err
+  readvarbytes <max> <hex>    -> ok <hex> <rest-hex> | err
 -/
 import NeoModel.Base.Proto
 import NeoModel.Model.Wire.VarUint
@@ -22,6 +23,13 @@ def step (s : Unit) (ws : List String) : Unit × String :=
       | some (v, r) => (s, s!"ok {v} {Hex.encode r}")
       | none => (s, "err")
     | none => (s, "bad-op")
+  | ["readvarbytes", m, h] =>
+    match m.toNat?, Hex.decode h with
+    | some max, some bs =>
+      match readVarBytes max bs with
+      | some (v, r) => (s, s!"ok {Hex.encode v} {Hex.encode r}")
+      | none => (s, "err")
+    | _, _ => (s, "bad-op")
   | _ => (s, "bad-op")
 
 def main : IO Unit := Proto.run () step
